@@ -235,7 +235,7 @@ Proof. intros [pm [enc [Hpm Henc]]] [Hv Hm] [Nv Nm]. unfold stored. cbn [snd]. r
     destruct miss as [x|]; cbn [app map fst snd forallb wf_tree]; rewrite wf_upcast, Nv, (valid_storable _ Hvd); cbn [andb].
     + rewrite Hmiss. reflexivity.
     + reflexivity.
-  - destruct elems as [|e r]; [discriminate|].
+  - destruct (map upcast_varr elems) as [|e r]; [discriminate|].
     destruct (forallb (fun x => dtype_eqb (v_dt x) (v_dt e)) r); [|discriminate].
     destruct (valid_prop_dtype (v_dt e)) eqn:Hvd; [|discriminate].
     destruct (serialize (e :: r)) as [[rows data]|err] eqn:Hser; [|discriminate].
